@@ -113,6 +113,16 @@ def r12b(ctx):
     for (b, si, k, e) in a.ret_sites():
         if k == 'ok' and e[3][0][1][0] == 'agg' and e[3][0][1][2].endswith('Option::Some'):
             hits.append((b, si, e[3][0][1][3][0][1]))
+    if not hits:
+        # the hit may be built further away from the return (an inlined helper's result, a result variable): every
+        # `Some(range)` of the cache's payload type built in the function is a hit site
+        for b_ in sorted(a.cfg.reach0):
+            for si_, st_ in enumerate(a.blocks[b_]['s']):
+                r_, d_ = st_.get('r'), st_.get('d')
+                if r_ and d_ and 'p' not in d_ and r_.get('k') == 'agg' and r_.get('ak') == 'adt' and r_.get('var') == 'Some' and 'Option' in (r_.get('adt') or '') \
+                        and 'CacheRange' in a.flow.lty(d_['l']):
+                    e_ = a.flow.rvalue(r_, 0)
+                    hits.append((b_, si_, e_[3][0][1]))
     ctx.floor('R12b', 'hit returns in get_impl', len(hits), 1)
     lp = c05.loop_of(a, opens[0])
     for (b, si, payload) in hits:
